@@ -2,6 +2,8 @@
 From Coq Require Import List Arith Bool Reals.
 Import ListNotations.
 From GS Require Import Num NumR RandomTrip.
+From Coq Require Import ZArith.
+From GS Require Import NumZ.
 From GS.Proofs Require Import RandomTripP.
 
 (** the telemetry hook is in the dispatcher chain exactly while a trip is ongoing, in every
@@ -57,6 +59,18 @@ Proof. intros. apply finished_after_any_history. Qed.
 Theorem C17_in_box :
   forall (a b u : R), (a <= b)%R -> (0 <= u <= 1)%R -> (a <= uniform R_ops (a, b) u <= b)%R.
 Proof. exact uniform_in_range. Qed.
+
+(** Non-vacuity (integers, scripted draws): a trip is started (3 draws, goto), telemetry far from the waypoint
+    changes nothing, telemetry on the waypoint draws the next one (3 more draws), finishing stops reacting. *)
+Example C17_example :
+  snd (t_run Z_ops (mkTCfg (0, 10)%Z (0, 20)%Z (5, 5)%Z 1%Z) [1; 1; 0; 0; 1; 0]%Z (t_init)
+         [TInitiate; TTelemetry (0, 0, 0)%Z; TTelemetry (10, 20, 5)%Z; TFinish; TTelemetry (0, 0, 0)%Z]) =
+  [([(10, 20, 5)%Z], (true, Some (10, 20, 5)%Z, 3));
+   ([], (true, Some (10, 20, 5)%Z, 3));
+   ([(0, 20, 5)%Z], (true, Some (0, 20, 5)%Z, 6));
+   ([], (false, Some (0, 20, 5)%Z, 6));
+   ([], (false, Some (0, 20, 5)%Z, 6))].
+Proof. vm_compute. reflexivity. Qed.
 
 Print Assumptions C17_hook_registered_iff_ongoing.
 Print Assumptions C17_travel.
